@@ -847,6 +847,17 @@ class Executor(Evaluator):
         recv = fv.py.recv
         if isinstance(obj, tuple) and obj[0] == 'method':
             return bm.call_method(self, recv, obj[1], args, kwargs, st)
+        if isinstance(obj, tuple) and obj[0] == 'fieldcall':
+            c = contracts.REG.get('field:' + obj[1])
+            if c is None:
+                raise Unsupported('call of the callable stored in %s without an assumed contract' % obj[1])
+            if not hasattr(c, '_dummy'):
+                ns = {}
+                exec('def fieldcall(%s): pass' % ', '.join(c.types_d), ns)
+                c._dummy = ns['fieldcall']
+                c._dummy.__module__ = 'field'
+                c._dummy.__qualname__ = obj[1]
+            return self.apply_contract(c._dummy, c, self.bind_args(c._dummy, None, args, kwargs), st)
         if isinstance(obj, tuple) and obj[0] == 'noop':
             return [(st, mk_none())]
         if getattr(fv.py, 'nodispatch', False) and isinstance(obj, types.FunctionType):
@@ -1107,7 +1118,7 @@ class Executor(Evaluator):
         """havoc what the contract's modifies clause names (see DESIGN 2.4)"""
         if not c.modifies_l:
             return
-        cx = SpecCtx(env, pre_heap, env, pre_heap, st, Frame(c.fn if c.kind == 'lemma' else repo.resolve(c.qualname), c) if c.kind != 'lemma' else None)
+        cx = SpecCtx(env, pre_heap, env, pre_heap, st, Frame(getattr(c, '_dummy', None) or repo.resolve(c.qualname), c) if c.kind != 'lemma' else None)
         bumped = False
         for m in c.modifies_l:
             bm.havoc_target(self, m, cx, st, pre_heap)
